@@ -24,7 +24,7 @@ from hsim.worlds.udp import Arrival, Emission, UdpWorld
 PROPERTY = "C05"
 CHUNK = {"quick": 16, "thorough": 40}
 TICK = 0.1
-PROBES = ["resend_after_stall", "ack_for_older_packet_after_second_injection", "ack_piggybacked_on_dropped_packet",
+PROBES = ["resend_after_stall", "retransmission_carrying_fresh_acks", "ack_for_older_packet_after_second_injection", "ack_piggybacked_on_dropped_packet",
           "packetack_mixing_injected_and_real", "packetack_all_injected_with_appended_acks", "budget_exhausted",
           "ack_completes_injection", "ack_same_tick_as_resend", "taken_copy_resent", "taken_copy_acked",
           "dropped_reliable_acked_to_sender", "endpoint_retransmission_forwarded", "wrong_way_ack_number_collision",
@@ -97,7 +97,8 @@ def gen_plan(rng: random.Random, tier: str) -> dict:
                           "reack": rng.random() < 0.15, "fate": fate()})
         elif x < p_inject + p_ack + 0.06:
             steps.append({"at": t, "op": rng.choice(["vsend", "ssend"]), "v": 0, "r": r, "name": "x", "mseed": 0,
-                          "retransmit_of": rng.randrange(50), "fate": fate()})
+                          "retransmit_of": rng.randrange(50), "fate": fate(),
+                          "acks": rng.choice([0, 0, 1, 2]), "reack": rng.random() < 0.1})
         else:
             k += 1
             inbound = rng.random() < 0.5
